@@ -530,7 +530,7 @@ def _ctor_arms(T, P):
 
 def r2b_emission(ctx):
     R = ctx.rule("C19.R2b", "the emitted constructor call passes, for each parameter name of dropshot's ApiEndpoint::new / ::new_for_types, the matching validated-metadata field, identically in the real "
-                 "and stub arms; the builder calls .summary/.description/.tag/.visible(false)/.deprecated(true)/.request_body_max_bytes are appended exactly under their field's condition and nothing else is", floor=30)
+                 "and stub arms; the builder calls .summary/.description/.tag/.visible(false)/.deprecated(true)/.request_body_max_bytes are appended exactly under their field's condition and nothing else is", floor=31)
     prod, T, P = _producer_template(ctx, R)
     ds = ctx.ds
     S, N, DOC = _leafname(P["self"]), _leafname(P["name"]), _leafname(P["doc"])
@@ -615,6 +615,22 @@ def r2b_emission(ctx):
             ok = cond_ok and arg_ok and exists
             detail = "%s ; condition on %s ok=%s, argument ok=%s, builder exists in dropshot=%s" % (cap(Q.show_toks(c["toks"])), leaf, cond_ok, arg_ok, exists)
         ctx.check(R, "builder:%s" % name, ok, detail, prod)
+    # ---- interpolation is by library ToTokens impls, except the content type (whose impl R5 decides)
+    q = _q(ctx, "ep", inline=True)
+    region = {prod.id: prod}
+    for g in ctx.ep.descendants(prod):
+        region[g.id] = g
+    for caller, callee in q.inlined:
+        if caller in region and callee in ctx.ep.F:
+            region[callee] = ctx.ep.F[callee]
+    local_impls = set()
+    for g in region.values():
+        for bb, t in g.live_calls(r"^quote::ToTokens::to_tokens$"):
+            ty = re.sub(r"&('\{erased\} )?(mut )?", "", (t.get("gargs") or ["?"])[0]).split("<")[0]
+            if ty in ctx.ep.adts and not ty.startswith(("syn::", "proc_macro2::", "quote::", "std::", "core::", "alloc::")):
+                local_impls.add(ty)
+    ctx.check(R, "interpolated-types", local_impls == {"util::ValidContentType"},
+              "crate-local ToTokens impls used while emitting (over %d functions): %s" % (len(region), sorted(local_impls)), prod)
     # ---- every validated field is consumed
     used = set()
     for x in Q.walk_toks(T):
